@@ -119,9 +119,9 @@ fn run(ctx: &mut Ctx) {
     let mut j = |ctx: &mut Ctx, c: Case| judge(ctx, c);
     workload::depth1(ctx, &pool, &mut j);
     workload::chains(ctx, &mut j);
-    let n = ctx.tier.of(60_000, 1_200_000);
+    let n = ctx.tier.of(400_000, 4_000_000);
     workload::random(ctx, &pool, n, ctx.tier.of(4, 6), &mut j);
-    text_route(ctx, ctx.tier.of(1_500, 20_000));
+    text_route(ctx, ctx.tier.of(4_000, 40_000));
 }
 
 pub fn cell_floor(m: &Merged) -> (u64, u64) {
@@ -141,7 +141,7 @@ fn finish(m: &Merged, tier: Tier) -> Finish {
     f.floors.push(floor(format!("all 47 Expr variants evaluated ({kinds_hit}/47)"), kinds_hit == 47));
     f.floors.push(floor(format!("operator x operand-type cells hit ({cells_hit}/{cells_total}, floor 95%)"), cells_hit * 100 >= cells_total * 95));
     f.floors.push(floor(format!("range failures predicted by the reference: {}", m.c("outcome:range-failure-expected")), m.c("outcome:range-failure-expected") >= 1000));
-    f.floors.push(floor(format!("text-route trees evaluated: {}", m.c("family:text-route")), m.c("family:text-route") >= tier.of(5_000, 50_000)));
+    f.floors.push(floor(format!("text-route trees evaluated: {}", m.c("family:text-route")), m.c("family:text-route") >= tier.of(20_000, 200_000)));
     f.extras.insert("cells_hit".into(), json!(cells_hit));
     f.extras.insert("cells_total".into(), json!(cells_total));
     f.extras.insert("kinds_hit".into(), json!(kinds_hit));
